@@ -68,6 +68,8 @@ type Exec struct {
 	lastClock                        *smt.Term
 	catchers                         []*catcher
 	skipDir, skipAll                 Value
+	lockCells                        []int
+	lockPairs                        map[[2]int]string
 	recoverVal                       Value
 	ctxErr                           Value
 	ufMemo                           map[string][]Value
